@@ -292,6 +292,8 @@ func run(id, tier, replay string) int {
 				defer wg.Done()
 				sem <- struct{}{}
 				defer func() { <-sem }()
+				releaseSlot := acquireMachineSlot()
+				defer releaseSlot()
 				tag := fmt.Sprintf("%s.%d", filepath.Base(bt.bin), s)
 				s = s % shards
 				r := shardRes{target: bt.t.Name,
